@@ -44,24 +44,25 @@ def plan(tier, seed):
     A = lambda **kw: Scenario(kind="asyncio", **kw)  # noqa: E731
     P = []
     if tier == "quick":
-        P.append((T(name="t2x1", progs=[[1], [2]], nest={}, nest_at={}, gran="full"), 2, 0.22, 0, True))
-        P.append((T(name="t2x21n", progs=[[1, 2], [3]], nest={1: [7]}, nest_at={1: at()}, gran="engine"), 2, 0.22, 0, True))
-        P.append((T(name="t3x1", progs=[[1], [2], [3]], nest={}, nest_at={}, gran="engine"), 1, 0.05, 300, True))
-        P.append((T(name="t2x2", progs=[[1, 2], [3, 4]], nest={3: [8]}, nest_at={3: at()}, gran="engine"), 1, 0.05, 300, False))
+        P.append((T(name="t2x1", progs=[[1], [2]], nest={}, nest_at={}, gran="full"), 2, 0.20, 0, True))
+        P.append((T(name="t2x21n", progs=[[1, 2], [3]], nest={1: [7]}, nest_at={1: at()}, gran="engine"), 2, 0.15, 0, True))
+        P.append((T(name="t2x2", progs=[[1, 2], [3, 4]], nest={3: [8]}, nest_at={3: at()}, gran="engine"), 2, 0.22, 300, False))
+        P.append((T(name="t3x1", progs=[[1], [2], [3]], nest={}, nest_at={}, gran="engine"), 1, 0.10, 300, True))
         P.append((A(name="a2", progs=[[1, 2], [3]], nest={}, nest_at={}, yields={"on": 1, "after": 1}, split=[3]), 99, 0.08, 0, True))
-        P.append((A(name="a3n", progs=[[1], [2], [3]], nest={1: [7]}, nest_at={1: at()}, yields=y(1), split=[2]), 99, 0.12, 0, True))
-        P.append((A(name="a4", progs=[[1, 2], [3], [4, 5], [6]], nest={3: [8]}, nest_at={3: at()}, yields=y(2), split=[4, 6]), 2, 0.12, 200, False))
+        P.append((A(name="a3n", progs=[[1], [2], [3]], nest={1: [7]}, nest_at={1: at()}, yields={**y(1), "on": 1}, split=[2]), 5, 0.14, 0, True))
+        P.append((A(name="a4", progs=[[1, 2], [3], [4, 5], [6]], nest={3: [8]}, nest_at={3: at()}, yields=y(2), split=[4, 6]), 2, 0.08, 200, False))
     else:
-        P.append((T(name="t2x1", progs=[[1], [2]], nest={}, nest_at={}, gran="full"), 3, 0.22, 0, True))
-        P.append((T(name="t2x2n", progs=[[1, 2], [3, 4]], nest={1: [7]}, nest_at={1: at()}, gran="full"), 2, 0.2, 0, True))
-        P.append((T(name="t3x1n", progs=[[1], [2], [3]], nest={2: [7, 8]}, nest_at={2: at()}, gran="engine"), 2, 0.12, 2000, True))
-        P.append((T(name="t3x2", progs=[[1, 2], [3, 4], [5]], nest={3: [8]}, nest_at={3: at()}, gran="engine"), 2, 0.1, 3000, False))
-        P.append((T(name="t4x1n", progs=[[1], [2], [3], [4]], nest={1: [7], 7: [8]}, nest_at={1: at(), 7: at()}, gran="engine"), 2, 0.1, 4000, False))
+        P.append((T(name="t2x1", progs=[[1], [2]], nest={}, nest_at={}, gran="full"), 3, 0.25, 0, True))
+        P.append((T(name="t2x2n", progs=[[1, 2], [3, 4]], nest={1: [7]}, nest_at={1: at()}, gran="full"), 2, 0.15, 0, True))
+        P.append((T(name="t2x2e", progs=[[1, 2], [3, 4]], nest={3: [8]}, nest_at={3: at()}, gran="engine"), 3, 0.08, 0, True))
+        P.append((T(name="t3x1n", progs=[[1], [2], [3]], nest={2: [7, 8]}, nest_at={2: at()}, gran="engine"), 2, 0.10, 2000, True))
+        P.append((T(name="t3x2", progs=[[1, 2], [3, 4], [5]], nest={3: [8]}, nest_at={3: at()}, gran="engine"), 2, 0.08, 3000, False))
+        P.append((T(name="t4x1n", progs=[[1], [2], [3], [4]], nest={1: [7], 7: [8]}, nest_at={1: at(), 7: at()}, gran="engine"), 2, 0.08, 4000, False))
         P.append((T(name="t4x2", progs=[[1, 2], [3, 4], [5, 6], [7]], nest={}, nest_at={}, gran="engine"), 1, 0.04, 4000, False))
         P.append((A(name="a2", progs=[[1, 2], [3, 4]], nest={1: [7]}, nest_at={1: at()}, yields=y(2), split=[3]), 99, 0.05, 0, True))
-        P.append((A(name="a3n", progs=[[1, 2], [3], [4]], nest={1: [7], 3: [8]}, nest_at={1: at(), 3: at()}, yields=y(2), split=[3]), 99, 0.06, 0, True))
+        P.append((A(name="a3n", progs=[[1, 2], [3], [4]], nest={1: [7], 3: [8]}, nest_at={1: at(), 3: at()}, yields=y(2), split=[3]), 6, 0.06, 0, True))
         P.append((A(name="a4", progs=[[1, 2], [3, 4], [5, 6], [7]], nest={3: [8]}, nest_at={3: at()}, yields=y(2), split=[5, 7]), 3, 0.06, 3000, False))
-        P.append((A(name="a4s", progs=[[1], [2], [3], [4]], nest={1: [7, 8]}, nest_at={1: at()}, yields=y(2), split=[2, 3, 4]), 99, 0.04, 0, False))
+        P.append((A(name="a4s", progs=[[1], [2], [3], [4]], nest={1: [7, 8]}, nest_at={1: at()}, yields=y(2), split=[2, 3, 4]), 5, 0.04, 2000, False))
     return P
 
 
@@ -100,11 +101,11 @@ def do_replay(ctx, pool, path, quiet=False):
     acc = run_one(pool, scn, devs)
     bad = False
     if acc.spec_fail:
-        ds, fails, out = acc.spec_fail[0]
-        rp = ctx.write_replay(f"replay_{scn_hash(scn.to_json() + ds)}.json", replay_text(scn, ds, fails, out))
+        ds, fails, out, det = acc.spec_fail[0]
+        rp = ctx.write_replay(f"replay_{scn_hash(scn.to_json() + ds)}.json", replay_text(scn, ds, fails, out, dict(observed=det)))
         ctx.violation(rp, fails[0])
         bad = True
-    elif acc.map_fail:
+    elif acc.map_fail and not (quiet and "diverged" in acc.map_fail[0][1]):
         ds, msg, labels = acc.map_fail[0]
         rp = ctx.write_replay(f"corr_{scn_hash(scn.to_json() + ds)}.json",
                               replay_text(scn, ds, [msg], "-", dict(correspondence="corr:C06:schedule->Step sequence", labels=labels)))
@@ -159,7 +160,7 @@ def _run(ctx, pool, procs):
         total.merge(acc)
     dist["corpus"] = len(corpus)
 
-    budget = ctx.left() - (8 if ctx.tier == "quick" else 30)
+    budget = min(ctx.left() - 10, 38) if ctx.tier == "quick" else ctx.left() - 40
     t0 = time.time()
     plans = plan(ctx.tier, ctx.seed)
     model_sets = {}
@@ -167,7 +168,7 @@ def _run(ctx, pool, procs):
     any_spec = []
     any_map = []
     for scn, bound, share, nsample, do_enum in plans:
-        deadline = min(time.time() + share * budget * 1.6, t0 + budget)
+        deadline = min(time.time() + share * budget * 1.3, t0 + budget)
         t1 = time.time()
         acc = explore_parallel(pool, scn, bound, deadline, procs)
         exhaustive = not acc.cut
@@ -196,10 +197,14 @@ def _run(ctx, pool, procs):
                     elif not any(ds == f[0] for f in acc.spec_fail):
                         acc.map_fail.append((ds, f"outcome `{o}` is not in the model's outcome set ({len(mouts)} outcomes)", []))
                 info["model_outcomes_realised"] = len(hit)
+                if scn.name == "t2x1" and exhaustive and len(hit) < len(mouts) and not acc.spec_fail:
+                    miss = [m for m in mouts if m not in hit]
+                    acc.map_fail.append(("-", f"model outcome never realised by the implementation within the bound: `{miss[0]}` "
+                                              f"({len(hit)}/{len(mouts)} realised)", []))
                 realised[scn.name] = (len(hit), len(mouts))
         dist[scn.name] = info
-        for ds, fails, out in acc.spec_fail:
-            any_spec.append((scn, ds, fails, out))
+        for ds, fails, out, det in acc.spec_fail:
+            any_spec.append((scn, ds, fails, out, det))
         for ds, msg, labels in acc.map_fail:
             any_map.append((scn, ds, msg, labels))
         total.merge(acc)
@@ -209,12 +214,12 @@ def _run(ctx, pool, procs):
     # verdicts: a Spec failure of the implementation is a violation with a replay;
     # a model/implementation disagreement without any Spec failure anywhere in this run: no-input
     seen = set()
-    for scn, ds, fails, out in any_spec[:3]:
+    for scn, ds, fails, out, det in any_spec[:3]:
         key = (scn.name, fails[0].split(":")[0])
         if key in seen:
             continue
         seen.add(key)
-        rp = ctx.write_replay(f"violation_{scn.name}_{scn_hash(scn.to_json() + ds)}.json", replay_text(scn, ds, fails, out))
+        rp = ctx.write_replay(f"violation_{scn.name}_{scn_hash(scn.to_json() + ds)}.json", replay_text(scn, ds, fails, out, dict(observed=det)))
         ctx.violation(rp, fails[0])
     if any_map and not any_spec:
         scn, ds, msg, labels = any_map[0]
